@@ -53,7 +53,7 @@ def containers(Xobj, p):
     out = {
         "frame": pd.DataFrame(Xobj.copy()),
         "ndarray2d": Xobj.copy(),
-        "frame_strcols": pd.DataFrame(Xobj.copy(), columns=[f"v{j}" for j in range(p)]),
+        "frame_strcols": pd.DataFrame(Xobj.copy(), columns=["zeta", "alpha", "mid", "beta"][:p]),   # deliberately not in sorted order
         "frame_range5": pd.DataFrame(Xobj.copy(), index=pd.RangeIndex(5, 5 + n)),
         "frame_datetime": pd.DataFrame(Xobj.copy(), index=pd.date_range("2021-03-01", periods=n, freq="D")),
         "frame_period": pd.DataFrame(Xobj.copy(), index=pd.period_range("2021-03", periods=n, freq="M")),
@@ -441,6 +441,9 @@ def replay(cx):
         def go(X):
             d = build(det, p, values=env, scale=env.get("scale", 0.5)).fit(X)
             res = dict(predict=_sparse(d.predict(X)))
+            sc_ = _scorer_of(d)
+            seen = getattr(sc_, "seen_", None) if sc_ is not None else None
+            res["seen"] = None if seen is None else np.asarray(seen, dtype=float)
             dense = d.transform(X)
             res["transform"], res["index"] = np.asarray(dense.values).tolist(), dense.index
             try:
@@ -462,6 +465,8 @@ def replay(cx):
             got = go(cs[cname])
             if got["predict"] != ref["predict"]:
                 bad.append(f"predict on {cname}: {got['predict']} vs on DataFrame {ref['predict']}")
+            if got["seen"] is not None and ref["seen"] is not None and (got["seen"].shape != ref["seen"].shape or not np.array_equal(got["seen"], ref["seen"])):
+                bad.append(f"on {cname} the scorer is fitted on {got['seen'].tolist()}, on the plain DataFrame of the same values on {ref['seen'].tolist()}")
             if got["transform"] != ref["transform"]:
                 bad.append(f"transform on {cname}: {got['transform']} vs {ref['transform']}")
             if not got["index"].equals(expected_index(cs[cname], n)):
